@@ -104,7 +104,10 @@ def gen_dict(rng, dflt, scene_prms):
         return copy.deepcopy(REFUSING)
     leaves = {q: get_path(scene_prms, q) for q in leaf_paths(scene_prms)} if rng.random() < 0.5 \
         else {}
-    leaves.update(prmspace.gen_leaf_values(rng, dflt, exclude=list(leaves)))
+    must = []
+    if rng.random() < 0.5:     # list-valued leaves are where sharing with the caller can hide
+        must = [q for q in rng.sample(prmspace.LIST_LEAVES, rng.choice([1, 2])) if q not in leaves]
+    leaves.update(prmspace.gen_leaf_values(rng, dflt, must=must, exclude=list(leaves)))
     out = prmspace.assign_from_leaves(leaves)
     if rng.random() < 0.35:
         prmspace.add_unknown_keys(rng, out, dflt)
@@ -553,8 +556,8 @@ def execute(run):
                 frames, prm_pool = [], []
                 for _ in range(rng_scene.choice([1, 2, 2])):
                     sc = scenes.gen_scene(rng_scene, rng_scene.choice(
-                        ['split', 'merge', 'demo-like', 'two-far', 'msa-crop', 'multi-hit',
-                         'rng-sensitive', 'no-hit', 'single-hit', 'vv', 'sparse']))
+                        ['split', 'merge', 'demo-like', 'demo-like', 'two-far', 'msa-crop',
+                         'multi-hit', 'rng-sensitive', 'no-hit', 'single-hit', 'vv', 'sparse']))
                     frames.append({'rows': sc['rows'], 'flavour': gen_flavour(rng_scene),
                                    'cls': sc['cls']})
                     prm_pool.append(sc['prms'])
